@@ -20,18 +20,19 @@ import (
 
 func init() {
 	h.Register(&h.Prop{ID: "C14", Gen: genC14, Exec: withCells(map[string]h.ExecFn{
-		"m.body":     exMBody,
-		"m.raw":      exMRaw,
-		"m.decode":   exMDecode,
-		"m.verify":   exMVerify,
-		"go.m.sign":  goMSign,
-		"go.m.limit": goMLimit,
-		"go.m.modes": goMModes,
-		"m.int":      exMInt,
-		"m.intdec":   exMIntDec,
-		"m.bodyx":    exMBodyX,
-		"m.extn":     exMExtn,
-		"go.m.ext":   goMExt,
+		"m.body":        exMBody,
+		"m.raw":         exMRaw,
+		"m.decode":      exMDecode,
+		"m.verify":      exMVerify,
+		"go.m.sign":     goMSign,
+		"go.m.limit":    goMLimit,
+		"go.m.modes":    goMModes,
+		"m.int":         exMInt,
+		"m.intdec":      exMIntDec,
+		"go.m.smallkey": goMSmallKey,
+		"m.bodyx":       exMBodyX,
+		"m.extn":        exMExtn,
+		"go.m.ext":      goMExt,
 	})})
 }
 
@@ -840,6 +841,35 @@ func unComment(x string) []byte {
 	return h.MustUnHex(x[1:])
 }
 
+// go.m.smallkey <ver> <fseed>: THE LIMIT of the idealisation (lean/TongoProofs/Lemmas/SigIdeal.lean), witnessed on the
+// real code: under the small-order Ed25519 key 01 00 … 00 (not an honestly generated key) VerifySignature accepts ANY body
+// carrying the fixed signature R = identity, S = 0. "No other key" is therefore stated, and true, for honestly
+// generated keys only. "ok" = the limit reproduces.
+func goMSmallKey(a []string) string {
+	ver := wallet.Version(atoi(a[0]))
+	r := rand.New(rand.NewSource(atoi64(a[1])))
+	low := make([]byte, 32)
+	low[0] = 1
+	sig := make([]byte, 64)
+	sig[0] = 1
+	for i := 0; i < 4; i++ {
+		signed := boc.NewCell()
+		for j := r.Intn(400); j > 0; j-- {
+			_ = signed.WriteBit(r.Intn(2) == 1)
+		}
+		var self [32]byte
+		env := rebuildExt(&sentInfo{destWc: 0, destAddr: self}, refAttach(ver, signed, sig))
+		if err := wallet.VerifySignature(ver, env, low); err != nil {
+			return "FAIL limit-not-reproduced small-order-key-rejected"
+		}
+		pub, _, _ := ed25519.GenerateKey(r)
+		if err := wallet.VerifySignature(ver, tableCell(cellTable(env)), pub); err == nil {
+			return "FAIL honest-key-accepted-the-fixed-signature"
+		}
+	}
+	return "ok"
+}
+
 // intLine: the m.int arguments of a spec
 func (s sendSpec) intLine() []string {
 	body, code, data, comment := s.parts()
@@ -1066,6 +1096,8 @@ func genC14(g *h.G) {
 			}
 			g.Emit("go.m.modes", vs, h.Hex(g.Bytes(32)), strings.Join(xs, ";"))
 		}
+		g.Count("limit_small_order_key")
+		g.Emit("go.m.smallkey", vs, fmt.Sprint(g.Rng.Intn(1<<30)))
 		// limits: both sides of the boundary, through the oracle and through the model
 		for _, n := range []int{max - 1, max, max + 1, max + 50} {
 			g.Count(fmt.Sprintf("limit_%s", map[bool]string{true: "within", false: "over"}[n <= max]))
